@@ -202,7 +202,8 @@ def txnPlace (w : World) (t : Txn) (oid : Nat) (marketVersion : Option Int) (exe
   match refusal with
   | some r => (w, t, .refused r)
   | none =>
-    if (w.market! t.market).blotter.contains oid then (w, t, .error .alreadyPlaced)
+    -- already in the blotter, or complete without ever entering it (a replacement order whose placement failed)
+    if (w.market! t.market).blotter.contains oid || (w.order! oid).status == some .executionComplete then (w, t, .error .alreadyPlaced)
     else
     let book := ((w.market! t.market).book).getD {}
     -- order.place(publish_time, market_version, async)
